@@ -47,6 +47,20 @@ def rand_history(rng: random.Random, n: int):
             else:                    # any shape
                 p = [rng.choice(used + LINKS) for _ in range(rng.randint(0, 5))]
             calls.append(["add_path", p, rng.choice(["", "", "o1", "r1", "o2"]), rng.choice(["", "", "d1", "d2"])])
+        elif r < 0.69:
+            # a call that raises part-way, after the graph has already changed: None among the nodes, a malformed link
+            # description in the middle of a bulk call
+            x = rng.random()
+            if x < 0.3:
+                ns = [rng.choice(used) for _ in range(rng.randint(1, 3))]
+                ns.insert(rng.randint(0, len(ns)), "None")
+                calls.append(["add_nodes", ns])
+            elif x < 0.8:
+                ts = [[rng.choice(used), rng.choice(LINKS), rng.choice(used)] for _ in range(rng.randint(1, 3))]
+                ts.insert(rng.randint(0, len(ts)), rng.choice([[rng.choice(used), rng.choice(LINKS)], [rng.choice(used), rng.choice(used)]]))
+                calls.append(["add_links", ts])
+            else:
+                calls.append(["add_link", rng.choice(used), rng.choice(LINKS), "None"])
         elif r < 0.90:
             calls.append(["read", rng.choice(LOOKUPS)])
         elif r < 0.95:
